@@ -353,7 +353,79 @@ pub fn system_name(id: u8) -> Option<&'static str> {
 }
 
 /// C03 trial body: the same well-framed input under several payload-handling paths.
+/// A stream of several GiB: the input delivered `rep` times in a row through the pipe seam. Rows and
+/// error positions are those of one delivery shifted by multiples of its length - also beyond 2^32.
+fn run_scan_huge(ex: &mut Executor, specs: &[ExecSpec], rep: u64, label: &str) -> TrialOutcome {
+    let mut out = TrialOutcome { labels: vec![label.to_string()], ..Default::default() };
+    let input = &specs[0].input;
+    let w = walk(input);
+    let period = input.len() as u64;
+    for (i, spec) in specs.iter().enumerate() {
+        let r = ex.exec(spec);
+        ex.fault("stream_beyond_4_GiB");
+        if i == 0 {
+            out.key = case_key(input, &r);
+            out.nontrivial = r.outcome.threads >= 3;
+        }
+        if let Some(f) = check_orderly(&r) {
+            out.fail = Some(f);
+            return out;
+        }
+        let is = |a: &str| spec.argv.iter().any(|x| x == a);
+        let tagm = |m: String| format!("{m} [cmd: {} ; pipe, {} bytes x {rep}]", spec.cmdline(), input.len());
+        if is("view") {
+            let rows = oracle::rdh_rows(&r.stdout);
+            let want = w.pkts.len() as u64 * rep;
+            if rows.len() as u64 != want {
+                out.fail = fail("scan", "huge-rdh-row-count", tagm(format!("view rdh printed {} rows, the stream has {want} RDHs", rows.len())));
+                return out;
+            }
+            for (k, row) in rows.iter().enumerate() {
+                let p = &w.pkts[k % w.pkts.len()];
+                let off = p.off as u64 + (k / w.pkts.len()) as u64 * period;
+                if row.off != off || row.orbit != p.rdh.orbit as u64 || row.link_id != p.rdh.link_id as u64 {
+                    out.fail = fail(
+                        "scan",
+                        "huge-rdh-row-offset",
+                        tagm(format!("row {k}: offset {:#X} link {} orbit {:#X}, the stream has offset {off:#X} link {} orbit {:#X}", row.off, row.link_id, row.orbit, p.rdh.link_id, p.rdh.orbit)),
+                    );
+                    return out;
+                }
+            }
+        } else {
+            // error messages: in ascending order of position, each at an RDH of the stream
+            let errs = oracle::error_msgs(&r.stderr);
+            let mut last = 0u64;
+            for e in &errs {
+                let Some(o) = e.offset else { continue };
+                if o < last {
+                    out.fail = fail(
+                        "scan",
+                        "huge-error-order",
+                        tagm(format!("error messages are not in order of position: {o:#X} after {last:#X}")),
+                    );
+                    return out;
+                }
+                last = o;
+                if !w.pkts.iter().any(|p| p.off as u64 == o % period) {
+                    out.fail = fail("scan", "huge-error-offset", tagm(format!("error position {o:#X} is not the start of an RDH of the stream")));
+                    return out;
+                }
+            }
+            if errs.iter().filter(|e| e.offset.map_or(false, |o| o >= 1 << 32)).count() == 0 {
+                ex.probe("huge_stream_without_error_beyond_4GiB");
+            } else {
+                ex.probe("huge_stream_errors_on_both_sides_of_4GiB");
+            }
+        }
+    }
+    out
+}
+
 pub fn run_scan(ex: &mut Executor, specs: &[ExecSpec], label: &str) -> TrialOutcome {
+    if let Some(rep) = specs.first().and_then(|s| s.input_repeat).filter(|n| *n > 1) {
+        return run_scan_huge(ex, specs, rep, label);
+    }
     let mut out = TrialOutcome { labels: vec![label.to_string()], ..Default::default() };
     let input = &specs[0].input;
     let w = walk(input);
@@ -444,6 +516,49 @@ pub fn run_filter_write(
     let mut out = TrialOutcome { labels: vec![label.to_string()], ..Default::default() };
     let input = &base.input;
     let w = walk(input);
+    if let Some(rep) = base.input_repeat.filter(|n| *n > 1) {
+        // more selected packets than the writer buffers (1024 * 1024 CDPs) in one run: the input delivered
+        // `rep` times through the pipe seam; the output is the selected packets of one delivery, `rep` times
+        for fargs in filters {
+            let mut spec = base.clone();
+            spec.argv.extend(fargs.iter().cloned());
+            if to_file {
+                spec.argv.extend(["-o".to_string(), "@OUT@".to_string()]);
+            }
+            let r = ex.exec(&spec);
+            ex.fault("more_packets_than_the_writer_buffers");
+            out.key = case_key(input, &r);
+            out.nontrivial = r.outcome.threads >= 3;
+            if let Some(f) = check_orderly(&r) {
+                out.fail = Some(f);
+                return out;
+            }
+            let f = filter_of_argv(&spec.argv);
+            let mut one = Vec::new();
+            let mut n_match = 0u64;
+            for p in w.pkts.iter().filter(|p| f.matches(&p.rdh)) {
+                one.extend_from_slice(&input[p.off..p.payload.end]);
+                n_match += 1;
+            }
+            let got: &[u8] = if to_file { r.out_file.as_deref().unwrap_or(&[]) } else { &r.stdout };
+            let want_len = one.len() as u64 * rep;
+            let ok = got.len() as u64 == want_len && (one.is_empty() || got.chunks(one.len()).all(|c| c == one.as_slice()));
+            if !ok {
+                out.fail = fail(
+                    "filter-output",
+                    "huge-bytes-differ",
+                    format!(
+                        "filtered output has {} bytes, expected {want_len} ({} selected packets x {rep} deliveries) [cmd: {}]",
+                        got.len(),
+                        n_match,
+                        spec.cmdline()
+                    ),
+                );
+                return out;
+            }
+        }
+        return out;
+    }
     let mut total_out = 0usize;
     let mut partition_applicable = true;
     for (i, fargs) in filters.iter().enumerate() {
